@@ -70,6 +70,34 @@ CHECKS['C08'] = dict(
          'non-negated groups is the text the group consumed.',
     note='Capture-content sub-oracle is the library\'s own fnmatch on prefix/group/suffix patterns (fnmatch mode).')
 
+CHECKS['C09'] = dict(
+    level='model_checking', engine='AUT', design='6 C09',
+    technique='explicit-state product exploration: automaton of the regex executed for escape(s) (or a non-magic p) vs '
+              'the singleton language written as a regex from s; exhaustive over strings x flag subsets',
+    text='All strings up to length 2 over a 19-symbol metacharacter alphabet x all 4096 subsets of 12 feature flags '
+         '(quick: length 1, and length 2 with small/large subsets) x FORCEUNIX/FORCEWIN x fnmatch/glob, longer strings '
+         'and separator-run/metacharacter adjacencies x covering families, Windows drive/UNC shapes with two-sided '
+         'bounds; the escaped pattern must denote exactly {s} modulo case/separator equivalences (exact language check).',
+    note='Singleton reference regex is written from the statement; comparisons cached per distinct executed regex.')
+CHECKS['C17'] = dict(
+    level='model_checking', engine='AUT', design='6 C17',
+    technique='relational (2-safety) product-automaton exploration over the executed regexes: mode table equalities, '
+              'case closure, separator closure, Windows vs Unix+IGNORECASE under backslash->slash, drive/UNC bounds',
+    text='Every generated mixed-case pattern (fnmatch and path mode) x base flags x all 16 subsets of {CASE, IGNORECASE, '
+         'FORCEWIN, FORCEUNIX}, str and bytes: language equality with the canonical mode, closure of the accepted set '
+         'under ASCII case and separator substitution (all pairs of related names), agreement of FORCEWIN with '
+         'Unix-mode matching of the normalised name, escaped-backslash separators, drive/UNC prefixes.',
+    note='Pure matching only (Windows walking cannot run here); drive/UNC prefix regexes written from the statement.')
+CHECKS['C18'] = dict(
+    level='model_checking', engine='AUT+enum', design='6 C18',
+    technique='exhaustive enumeration of patterns/lists/strings with str-vs-bytes differential oracle; product-automaton '
+              'exploration where regex texts differ and for per-byte bracket semantics over a byte alphabet',
+    text='translate/compile regex texts of the bytes call equal the encoded str texts for every generated pattern, list '
+         'and RAWCHARS escape string (automata compared otherwise); bytes-mode brackets/POSIX classes equal the per-byte '
+         'reference on all byte strings; escape/is_magic agree; every entry point raises TypeError on a str/bytes mix; '
+         'glob and WcMatch on a real tree with Latin-1 names return the encoded paths in the same order.',
+    note='Identical regex text is taken to have identical meaning on ASCII subjects in str and bytes mode.')
+
 PENDING = {}
 
 
